@@ -1,5 +1,5 @@
 (* C04 — Answers are independent of clause order and engine history. Model: Model/Datalog.v. *)
-From IL Require Import Model.Value Model.Datalog Proofs.DatalogMono Proofs.DatalogMisc Proofs.DatalogEngine Proofs.DatalogPerm.
+From IL Require Import Model.Value Model.Datalog Proofs.DatalogMono Proofs.DatalogMisc Proofs.DatalogEngine Proofs.DatalogPerm Proofs.DatalogKahn.
 From Coq Require Import Permutation.
 Open Scope N_scope.
 
@@ -47,6 +47,27 @@ Proof.
   eapply seq_trans; [exact C1|]. eapply seq_trans; [apply Hall|]. apply seq_sym, C2.
 Qed.
 
+(* The same with the execution-order hypotheses discharged (Proofs/DatalogKahn.v): it is enough that one
+   rank function decreases along the head dependencies of both programs (acyclic apart from self-loops)
+   and that the last head of each is not used by another head. *)
+Theorem C04_clause_order_and_repetition_acyclic :
+  forall fuel p p' edb M M' ans ans' (rank : rel -> nat),
+    (forall c, In c p <-> In c p') ->
+    no_aggb p = true -> stratified p = true -> stratified p' = true -> heads_fresh p edb = true ->
+    (forall h g, In h (heads p) -> In g (deps p (heads p) h) -> (rank g < rank h)%nat) ->
+    (forall h, In h (heads p) -> ~ In (last (heads p) 0) (deps p (heads p) h)) ->
+    (forall h g, In h (heads p') -> In g (deps p' (heads p') h) -> (rank g < rank h)%nat) ->
+    (forall h, In h (heads p') -> ~ In (last (heads p') 0) (deps p' (heads p') h)) ->
+    perfect_model fuel p edb = Some M -> perfect_model fuel p' edb = Some M' ->
+    eval_engine fuel p edb = Some ans -> eval_engine fuel p' edb = Some ans' ->
+    topo_order p <> [] -> topo_order p' <> [] -> engine_query p = engine_query p' ->
+    (forall r, seq (get M r) (get M' r)) /\ seq ans ans'.
+Proof.
+  intros fuel p p' edb M M' ans ans' rank Hs Ha S1 S2 Hf R1 B1 R2 B2.
+  exact (C04_clause_order_and_repetition fuel p p' edb M M' ans ans' Hs Ha S1 S2 Hf
+           (acyclic_order_ok p rank R1 B1) (acyclic_order_ok p' rank R2 B2)).
+Qed.
+
 (* Two programs with the same clause set, both inside C01's hypotheses, answer with the query relation
    of their perfect models (corollary of C01; superseded by C04_clause_order_and_repetition above,
    kept because it does not need `stratified p'` to be related to p). *)
@@ -70,3 +91,4 @@ Print Assumptions C04_consequences_dup.
 Print Assumptions C04_base_facts_unchanged.
 Print Assumptions C04_perm_partial.
 Print Assumptions C04_clause_order_and_repetition.
+Print Assumptions C04_clause_order_and_repetition_acyclic.
